@@ -284,6 +284,10 @@ Qed.
 Lemma t_nm_put t x m t' : t_nm t' (t_put t x m) = if N.eqb t t' then x else t_nm t' m.
 Proof. unfold t_nm. rewrite t_get_put. destruct (N.eqb t t'); reflexivity. Qed.
 
+(* everything below holds for EVERY set D of tenants that have an alias directory *)
+Section AliasStore.
+Context {D : Dirs}.
+
 (* tenants without an alias directory never hold an alias file *)
 Definition ainv (s : astore) : Prop :=
   forall t, adir_exists t = false -> t_nm t (afiles s) = [].
@@ -730,9 +734,93 @@ Proof.
   destruct o; try discriminate; reflexivity.
 Qed.
 
+(* ---- several tenants (round h) ----
+   [teq t f g]: the specs f and g agree on everything tenant t can read *)
+Definition teq (t : tenant) (f g : aspec) : Prop := forall i al, ns_mem al (f t i) = ns_mem al (g t i).
+
+Lemma aspec_step_teq t f g o : teq t f g -> teq t (aspec_step f o) (aspec_step g o).
+Proof.
+  intros H i a. destruct o; cbn [aspec_step]; try apply H.
+  - destruct (adir_exists t0); [|apply H].
+    destruct (N.eqb t0 t && bytes_eqb idx i); [rewrite !ns_mem_add, H; reflexivity|apply H].
+  - destruct (N.eqb t0 t && bytes_eqb idx i); [rewrite !ns_mem_del, H; reflexivity|apply H].
+Qed.
+
+Lemma aspec_step_other t f o : aop_for t o = false -> teq t (aspec_step f o) f.
+Proof.
+  intros Ho i a. destruct o; cbn [aop_for] in Ho; try discriminate; cbn [aspec_step]; try reflexivity.
+  - destruct (adir_exists t0); [|reflexivity]. rewrite Ho. reflexivity.
+  - rewrite Ho. reflexivity.
+Qed.
+
+Lemma aspec_run_teq ops : forall t f g, teq t f g -> teq t (aspec_run ops f) (aspec_run ops g).
+Proof.
+  induction ops as [|o r IH]; intros t f g H; cbn [aspec_run]; [exact H|].
+  apply IH. apply aspec_step_teq. exact H.
+Qed.
+
+Lemma aspec_run_filter ops : forall t f, teq t (aspec_run ops f) (aspec_run (filter (aop_for t) ops) f).
+Proof.
+  induction ops as [|o r IH]; intros t f; cbn [aspec_run filter]; [intros ? ?; reflexivity|].
+  destruct (aop_for t o) eqn:Eo; cbn [aspec_run].
+  - apply IH.
+  - intros i a. rewrite <- (IH t f i a). apply aspec_run_teq. apply aspec_step_other. exact Eo.
+Qed.
+
+(* ONE TENANT'S OPERATIONS NEVER DISTURB ANOTHER'S, restarts and shutdown flushes included: what
+   tenant t reads after ANY history of ANY number of tenants is what it reads after the history
+   with every other tenant's operations deleted (the restarts stay) *)
+Theorem alias_tenants_independent ops t i al :
+  ns_mem al (aabs (arun ops empty_astore) t i) =
+  ns_mem al (aabs (arun (filter (aop_for t) ops) empty_astore) t i).
+Proof.
+  rewrite !alias_refines_map. apply aspec_run_filter.
+Qed.
+
+(* ... the reverse lookups (IsAlias, GetAllAliasesAsMapArray, alias expansion) as well *)
+Theorem alias_tenants_independent_reverse ops t idx al :
+  ns_mem idx (nm_get al (t_nm t (arev (arun ops empty_astore)))) =
+  ns_mem idx (nm_get al (t_nm t (arev (arun (filter (aop_for t) ops) empty_astore)))).
+Proof.
+  rewrite (alias_reverse_consistent ops t idx al).
+  rewrite (alias_reverse_consistent (filter (aop_for t) ops) t idx al).
+  apply alias_tenants_independent.
+Qed.
+
+(* WRITE-BACK AT SHUTDOWN, then load: from ANY state in which memory and files agree (reachable or
+   not, any number of tenants), the shutdown flush followed by a start gives every tenant back
+   exactly its own forward and reverse maps: load (flush s) t = s t *)
+Theorem alias_flush_load_roundtrip s : ainv s -> rev_consistent s ->
+  (forall t i al, ns_mem al (aabs (fst (astep s AShutdownRestart)) t i) = ns_mem al (aabs s t i)) /\
+  (forall t idx al, ns_mem idx (nm_get al (t_nm t (arev (fst (astep s AShutdownRestart))))) =
+                    ns_mem idx (nm_get al (t_nm t (arev s)))).
+Proof.
+  intros I R. destruct (astep_full s AShutdownRestart I R) as (_ & R' & M).
+  split.
+  - intros t i al. rewrite M. reflexivity.
+  - intros t idx al. rewrite (R' t idx al), (R t idx al). apply M.
+Qed.
+
+(* the reverse lookup survives a restart, graceful or not, for every tenant *)
+Theorem alias_restart_preserves_reverse ops o t idx al : is_restart o = true ->
+  ns_mem idx (nm_get al (t_nm t (arev (arun (ops ++ [o]) empty_astore)))) =
+  ns_mem idx (nm_get al (t_nm t (arev (arun ops empty_astore)))).
+Proof.
+  intros Hr. rewrite (alias_reverse_consistent (ops ++ [o]) t idx al).
+  rewrite (alias_reverse_consistent ops t idx al). apply alias_restart_preserves. exact Hr.
+Qed.
+
+(* with at most one tenant in memory the loop body runs once: a scratch map shared between the
+   iterations cannot be told from one allocated per iteration (why single-tenant histories do not
+   distinguish the two) *)
+Lemma shared_scratch_one_tenant s tr : arev s = [tr] -> flush_rev_shared s = flush_rev_scoped s.
+Proof. intros H. unfold flush_rev_shared, flush_rev_scoped. rewrite H. reflexivity. Qed.
+
+End AliasStore.
+
 (* PRE-FIX documentation (about [arun_prefix]): tenant 0's alias files were not scanned at start, so
    after any restart IsAlias no longer found a stored alias ... *)
-Theorem prefix_alias_reverse_lost_refuted :
+Theorem prefix_alias_reverse_lost_refuted (D : Dirs) :
   exists ops, ~ rev_consistent (arun_prefix ops empty_astore).
 Proof.
   exists [AAdd 0 [105;49] [97;49]; ACrashRestart].
@@ -741,7 +829,7 @@ Qed.
 
 (* ... and the shutdown flush wrote <alias>.json holding the index names: index i1 gets alias a1;
    shutdown + start; the store said that an index named a1 has the alias i1, which nobody wrote *)
-Theorem prefix_alias_shutdown_flush_refuted :
+Theorem prefix_alias_shutdown_flush_refuted (D : Dirs) :
   exists ops t i al,
     ns_mem al (aabs (arun_prefix ops empty_astore) t i) <> ns_mem al (aspec_run ops (aabs empty_astore) t i).
 Proof.
@@ -750,13 +838,59 @@ Proof.
 Qed.
 
 (* the same operations on the fixed code *)
-Example alias_restart_fixed :
+Example alias_restart_fixed (D : Dirs) :
   snd (astep (arun [AAdd 0 [105;49] [97;49]; AShutdownRestart] empty_astore) (AIsAlias 0 [97;49])) = ASet [[105;49]] /\
   aabs (arun [AAdd 0 [105;49] [97;49]; AShutdownRestart] empty_astore) 0 [97;49] = [] /\
   aabs (arun [AAdd 0 [105;49] [97;49]; AShutdownRestart] empty_astore) 0 [105;49] = [[97;49]].
 Proof. vm_compute. repeat split; reflexivity. Qed.
 
-Example alias_guard_satisfiable :
+Example alias_guard_satisfiable (D : Dirs) :
   snd (astep (arun [AAdd 0 [105;49] [97;49]; AAdd 0 [105;50] [97;49]; ARemove 0 [105;49] [97;49]] empty_astore)
              (AIsAlias 0 [97;49])) = ASet [[105;50]].
 Proof. vm_compute. reflexivity. Qed.
+
+(* ---- round h: the scratch map of the shutdown flush shared between the tenants ([arun_shared]) ----
+   two tenants with an alias directory (0 and 5), one alias each, shutdown + start: tenant 5 is
+   answered that ITS index i1 has the alias a1, which only tenant 0 wrote *)
+Theorem shared_scratch_flush_refuted :
+  exists (D : Dirs) ops t i al,
+    ns_mem al (aabs (arun_shared ops empty_astore) t i) <> ns_mem al (aspec_run ops (aabs empty_astore) t i).
+Proof.
+  exists [5], [AAdd 0 [105;49] [97;49]; AAdd 5 [105;50] [97;50]; AShutdownRestart], 5, [105;49], [97;49].
+  vm_compute. discriminate.
+Qed.
+
+(* ... it also breaks tenant independence: tenant 5 reads something else than without tenant 0 *)
+Theorem shared_scratch_flush_not_independent :
+  exists (D : Dirs) ops t i al,
+    ns_mem al (aabs (arun_shared ops empty_astore) t i) <>
+    ns_mem al (aabs (arun_shared (filter (aop_for t) ops) empty_astore) t i).
+Proof.
+  exists [5], [AAdd 0 [105;49] [97;49]; AAdd 5 [105;50] [97;50]; AShutdownRestart], 5, [105;49], [97;49].
+  vm_compute. discriminate.
+Qed.
+
+(* the same history on the model of the code, and with the per-tenant scratch map in the shape of
+   the code ([arun_scoped]): every tenant reads its own aliases, forward and reverse; two tenants
+   sharing an index NAME keep their own alias sets *)
+Example alias_two_tenants_shutdown :
+  let D : Dirs := [5] in
+  let ops := [AAdd 0 [105;49] [97;49]; AAdd 5 [105;50] [97;50]; AAdd 5 [105;49] [97;51]; AShutdownRestart] in
+  aabs (arun ops empty_astore) 5 [105;49] = [[97;51]] /\
+  aabs (arun ops empty_astore) 5 [105;50] = [[97;50]] /\
+  aabs (arun ops empty_astore) 0 [105;49] = [[97;49]] /\
+  aabs (arun ops empty_astore) 0 [105;50] = [] /\
+  snd (astep (arun ops empty_astore) (AIsAlias 5 [97;49])) = ASet [] /\
+  snd (astep (arun ops empty_astore) (AIsAlias 0 [97;49])) = ASet [[105;49]] /\
+  aabs (arun_scoped ops empty_astore) 5 [105;49] = [[97;51]] /\
+  aabs (arun_scoped ops empty_astore) 0 [105;50] = [] /\
+  (* the shared scratch map merges tenant 0's alias into tenant 5's file of the same index name *)
+  aabs (arun_shared ops empty_astore) 5 [105;49] = [[97;49]; [97;51]].
+Proof. vm_compute. repeat split; reflexivity. Qed.
+
+(* a tenant without an alias directory stores nothing (the add is refused), with or without others *)
+Example alias_no_directory_refused :
+  let D : Dirs := [5] in
+  snd (astep empty_astore (AAdd 7 [105;49] [97;49])) = AAck false /\
+  snd (astep empty_astore (AAdd 5 [105;49] [97;49])) = AAck true.
+Proof. vm_compute. split; reflexivity. Qed.
